@@ -161,6 +161,101 @@ def unify_digits(digits, N, R, L=None):
     return one, "proved", "%d statements in %d level group(s)" % (len(digits), len(groups))
 
 
+_EVAL_CACHE = {}
+
+
+def check_by_evaluation(chk, v, fname, rule="R9"):
+    """The decomposition evaluated on concrete coefficients for small layouts (sa/concrete.IntMachine; the effect tree is evaluated,
+    nothing runs): for every (l, Bgbit) of a grid that includes Bgbit = 1, l = 1 and l*Bgbit = 32, and every coefficient whose leading
+    l*Bgbit + 2 bits take all patterns (boundary values for the wide layouts), the digits must lie in [-Bg/2, Bg/2), recompose to the
+    coefficient within 2^(32 - l*Bgbit), and the input must be what it was.  Decides functions the statement rules do not cover (the
+    coefficient-wise reference variant) and is a second, independent decision for the C path of the main one."""
+    from sa import concrete, symexec
+    f = v.fn(fname, required=False)
+    vn = v.name
+    key = "%s: digits in [-Bg/2, Bg/2), recomposition within 2^(32-l*Bgbit), input unchanged (evaluated on small layouts)" % fname
+    if f is None:
+        chk.note("%s is not defined in %s" % (fname, vn))
+        return
+    res, sample, params = [p_["n"] for p_ in f.params]
+    effs = symexec.run_function(v, f, hooks=summ.LOCAL_HELPERS)[0]
+    if any(x["e"] in ("asm",) for x in symexec.flat(effs)):
+        chk.note("%s: %s uses inline assembly in this variant; evaluated in the variants that use the C path" % (vn, fname))
+        return
+    # the same source gives the same effect tree in every variant: evaluate it once per run
+    import hashlib
+    sig = hashlib.sha256((fname + repr([(x["e"], x.get("l")) for x in symexec.flat(effs)]) + open(v.prog.source_path(f.file)).read()).encode()).hexdigest()
+    if sig in _EVAL_CACHE:
+        st_, det_ = _EVAL_CACHE[sig]
+        (chk.proved if st_ == "proved" else chk.refuted)(rule, key, where=f.where, variant=vn, detail=det_)
+        return
+    Nt = sym.arrow(P(params, "tlwe_params"), "N")
+    layouts = [(1, 1), (2, 1), (3, 1), (5, 1), (1, 2), (2, 2), (3, 2), (1, 3), (2, 3), (3, 3), (1, 4), (2, 4), (2, 7), (3, 7), (2, 10), (4, 8), (2, 16), (16, 2), (32, 1)]
+    nchecked = 0
+    for l_, bb in layouts:
+        Bg, half = 1 << bb, 1 << (bb - 1)
+        offset = sum(half << (32 - (p_ + 1) * bb) for p_ in range(l_)) & 0xFFFFFFFF
+        used = l_ * bb
+        if used + 2 <= 8:
+            vals = [(u << (32 - used - 2)) & 0xFFFFFFFF for u in range(1 << (used + 2))]
+        else:
+            edges = {0, 1, 0x7FFFFFFF, 0x80000000, 0x80000001, 0xFFFFFFFF, offset, (-offset) & 0xFFFFFFFF, (0x80000000 - offset) & 0xFFFFFFFF}
+            for p_ in range(l_):
+                w = 1 << (32 - (p_ + 1) * bb)
+                for m_ in (half, half - 1, half + 1, Bg - 1, 1):
+                    for d_ in (-1, 0, 1):
+                        edges.add((m_ * w + d_) & 0xFFFFFFFF)
+                        edges.add((m_ * w - offset + d_) & 0xFFFFFFFF)
+            vals = sorted(edges)
+        # N coefficients at a time
+        nv = 16
+        for start in range(0, len(vals), nv):
+            chunk = (vals[start:start + nv] + [0] * nv)[:nv]
+            scal = {Nt: nv, P(params, "l"): l_, P(params, "Bgbit"): bb, P(params, "Bg"): Bg, P(params, "halfBg"): half,
+                    P(params, "maskMod"): Bg - 1, P(params, "offset"): offset, P(params, "kpl"): 2 * l_,
+                    sym.arrow(P(params, "tlwe_params"), "k"): 1, P(sample, "N"): nv}
+            im = concrete.IntMachine(scalars=scal)
+            src = lambda j_: concrete.lvalue_location(sym.idx(P(sample, "coefsT"), I(j_)), {})
+            for j_, x_ in enumerate(chunk):
+                im.inputs[src(j_)] = x_
+            try:
+                concrete.interpret(effs, dict(scal), im.handler(), on_segment=im.segment)
+            except concrete.NotEvaluable as e:
+                chk.broken("%s: evaluation for (l, Bgbit) = (%d, %d): %s" % (fname, l_, bb, e))
+            for j_, x_ in enumerate(chunk):
+                now = concrete.Memory.read(im, src(j_))
+                if isinstance(now, int) and (now - x_) & 0xFFFFFFFF:
+                    det_ = "with (l, Bgbit) = (%d, %d): the input coefficient 0x%08x is 0x%08x after the call" % (l_, bb, x_, now & 0xFFFFFFFF)
+                    _EVAL_CACHE[sig] = ("refuted", det_)
+                    chk.refuted(rule, key, where=f.where, variant=vn, detail=det_)
+                    return
+                rec = 0
+                for p_ in range(l_):
+                    d_ = concrete.Memory.read(im, concrete.lvalue_location(sym.idx(sym.fld(sym.idx(sym.sym(res), I(p_)), "coefs"), I(j_)), {}))
+                    if not isinstance(d_, int):
+                        chk.broken("%s: digit %d of coefficient %d is not written for (l, Bgbit) = (%d, %d)" % (fname, p_, j_, l_, bb))
+                    if d_ >= 1 << 31:
+                        d_ -= 1 << 32
+                    if not -half <= d_ < half:
+                        det_ = "with (l, Bgbit) = (%d, %d) and the coefficient 0x%08x: digit %d is %d, outside [%d, %d)" % (l_, bb, x_, p_, d_, -half, half)
+                        _EVAL_CACHE[sig] = ("refuted", det_)
+                        chk.refuted(rule, key, where=f.where, variant=vn, detail=det_)
+                        return
+                    rec += d_ << (32 - (p_ + 1) * bb)
+                err = (x_ - rec) & 0xFFFFFFFF
+                if err >= 1 << 31:
+                    err = (1 << 32) - err
+                if err >= (1 << (32 - used)) or (used == 32 and err):
+                    det_ = "with (l, Bgbit) = (%d, %d) and the coefficient 0x%08x: the digits recompose to a value %d units away (bound 2^%d)" % (
+                        l_, bb, x_, err, 32 - used)
+                    _EVAL_CACHE[sig] = ("refuted", det_)
+                    chk.refuted(rule, key, where=f.where, variant=vn, detail=det_)
+                    return
+                nchecked += 1
+    _EVAL_CACHE[sig] = ("proved", "%d coefficients over %d layouts" % (nchecked, len(layouts)))
+    chk.proved(rule, key, where=f.where, variant=vn, detail="%d coefficients over %d layouts" % (nchecked, len(layouts)))
+
+
 def run(chk):
     prog = Program()
     chk.explanation = (
@@ -171,6 +266,11 @@ def run(chk):
         "sum_p 2^(s_p)) and compared as exponent polynomials in (p, l, Bgbit).")
     chk.trusted = ["clang 14 front end", "summariser", "AT&T parser and lane evaluator", "bit-field algebra"]
     chk.assume("the asm loops are bottom-tested over N/8 vectors: N is a multiple of 8 and >= 8 (ring degree 1024, C19.R3)")
+    # R9 first, for every variant that has a C path: a semantic verdict on small layouts must not be hidden behind a shape the
+    # statement rules below do not know
+    for v in prog.variants():
+        for fname_ in (FN, "Torus32PolynomialDecompH_old"):
+            check_by_evaluation(chk, v, fname_)
     for v in prog.variants():
         chk.analysed["variants"] = chk.analysed.get("variants", 0) + 1
         # R8 the bit algebra of R1..R5 reads `>>` as the logical shift: every right shift of the gadget code must act on an unsigned
@@ -182,6 +282,8 @@ def run(chk):
 
 def check_variant(chk, v):
     vn = v.name
+    for fname_ in (FN, "Torus32PolynomialDecompH_old"):
+        check_by_evaluation(chk, v, fname_)
     f = v.fn(FN)
     res, sample, params = [p["n"] for p in f.params]
     rel = bounds.ctor_relations(v)
